@@ -7,6 +7,8 @@ import json, subprocess, sys, os, time
 REPO = os.environ.get("CAMPAIGN_REPO", "/repo")
 SIM = os.environ.get("CAMPAIGN_SIM")  # a copy of /verif/sim whose path deps point at CAMPAIGN_REPO
 ROOT = os.environ.get("CAMPAIGN_ROOT", "/verif")
+ALT_FEATURE = os.environ.get("CAMPAIGN_ALT_FEATURE", "lib-all-features")
+ALT_IDS = os.environ.get("CAMPAIGN_ALT_IDS", "C02,C03,C06").split(",")
 IDS = [c["property_id"] for c in json.load(open("/verif/MANIFEST.json"))["checks"]]
 
 def sh(cmd, cwd=None, timeout=3600):
@@ -36,9 +38,9 @@ def run_mutant(name, apply, expected, run_tests=True, only=None):
                 rc, out = sh(f"VERIF_ROOT={ROOT} PKSIM_PROFILE=checked {SIM}/target/release/pksim check {pid} --tier quick", cwd=ROOT)
             else:
                 rc, out = sh(f"./check {pid} --tier quick", cwd="/verif")
-            if pid in ("C02", "C03", "C06") and rc == 0 and SIM:
+            if pid in ALT_IDS and rc == 0 and SIM:
                 # second build: every optional library feature on (what ./check does for these families)
-                sh("CARGO_NET_OFFLINE=true cargo build --release --offline --features lib-all-features --target-dir target-testable 2>&1 | tail -5", cwd=SIM)
+                sh(f"CARGO_NET_OFFLINE=true cargo build --release --offline --features {ALT_FEATURE} --target-dir target-testable 2>&1 | tail -5", cwd=SIM)
                 rc, out = sh(f"VERIF_ROOT={ROOT} PKSIM_PROFILE=checked PKSIM_EVIDENCE_SUFFIX=allfeat {SIM}/target-testable/release/pksim check {pid} --tier quick", cwd=ROOT)
             if rc != 0:
                 clauses = [l.strip()[8:] for l in out.splitlines() if l.strip().startswith("clause:")]
